@@ -786,3 +786,15 @@ contract(
     + ["implies(sampler.iid_samples is not None, " + e + ")"
        for e in recomputed("iid_samples")],
 )
+
+# failed obligations of the proposal-side functions are replayed on a concrete
+# instance built around the package's own ImportanceFlowProposal
+from pyvc.contracts import CONTRACTS as _ALL
+for _c in _ALL.values():
+    if _c.file == IP and _c.verify and _c.replay is None and _c.func in (
+            "ImportanceFlowProposal.compute_log_Q",
+            "ImportanceFlowProposal.update_log_q",
+            "ImportanceFlowProposal.compute_meta_proposal_from_log_q",
+            "ImportanceFlowProposal.compute_meta_proposal_samples",
+            "ImportanceFlowProposal.draw"):
+        _c.replay = {"module": "replay.c03_ins", "func": "ins_replay"}
